@@ -15,6 +15,7 @@ var harnesses = map[string]func(*vsched.H){
 	"MergeOKCount":   harness.MergeOKCount,
 	"MergeReq":       harness.MergeReq,
 	"RouterScenario": harness.RouterScenario,
+	"SessionEnd":     harness.SessionEnd,
 }
 
 func main() {
